@@ -110,3 +110,34 @@ def warm_then_disabled(how: int, a: int, e: int) -> int:
     if T._ok(v) != T._ok(ev):
         return 0
     return 2
+
+
+# ---------------------------------------------------------------------------------------------------------
+# partial bodies: a passing validate(o) guarantees that evaluate(o) cannot fail because of a missing option
+def h_vke_partial(gid, **a):
+    g = GRAPHS[gid]
+    o = mkdict(g.universe, a)
+    fn = T.fault_names(g.spec)
+    faults = {n: bool(a.get("f%d" % i, False)) for i, n in enumerate(fn)}
+    exp = T.ref_out(g.spec, o)
+    if exp[0] == "fail" and exp[1] == "domain":
+        return 1
+    with quiet():
+        v = outcome(lambda: T.fresh(g, Env(faults)).validate(o))
+        e = outcome(lambda: T.fresh(g, Env(faults))(o))
+    note("graph", gid, "options", o, "bodies that raise", faults, "validate", v, "evaluate", e)
+    if T._ok(v) and e[0] == "missing":
+        return 0
+    return 2 if (T._ok(v) and not T._ok(e)) else 1
+
+
+from engine.catalog import names as _names
+
+for _g in [GRAPHS[g] for g in sorted(GRAPHS) if g not in HEAVY and _names(GRAPHS[g].spec) and "effopt" not in GRAPHS[g].tags]:
+    _fp = [("f%d" % i, "bool") for i, _ in enumerate(T.fault_names(_g.spec))]
+    _ex = {"f%d" % i: (n != "pred") for i, n in enumerate(T.fault_names(_g.spec))}
+    T.register("C10", __name__, h_vke_partial, {}, [_g], lemma="partial-bodies", name_prefix="vkep", timeout=300, extra_params=_fp,
+               extra_example=(_ex if _g.gid != "g33" else None), example_index={"g17": 1, "g26": 1},
+               what="bodies (callbacks, effects, predicates, steps) that raise on a chosen subset: when validate(o) passes, evaluate(o) "
+                    "never fails with a missing-option error",
+               bounds="fault flags for up to 4 callables; one symbolic dictionary")
